@@ -415,6 +415,7 @@ pub struct World {
     pub prog_wants_access: bool,
     pub prog_readonly_churn: bool,
     pub gen_set: Vec<bool>,
+    pub payall_depth: Vec<u32>,
 }
 
 thread_local! {
